@@ -105,7 +105,7 @@ theorem append_root {f : Forest} (w : f.W) {p t : Nat} {tt : HTree} (ck : Checke
     obtain ⟨_, hsame, _, _⟩ := addConsolidate_spec w t (f.lastChild p) none
     unfold append
     simp only [structureCheck_of_checked ck, hlc, Bool.not_true, Bool.false_eq_true, if_false]
-    rw [prevSibling_none_of_root hpn, removeConsolidate_none_left]
+    rw [prevSibling_none_of_root hpn, fa_removeConsolidate_none_left]
     simp only [hc2, Bool.false_eq_true, if_false]
     rw [hsame hc2, checkedAppend_eq hg w (ck.ne w) ck.notAnc]
     simp
@@ -117,7 +117,7 @@ theorem append_root {f : Forest} (w : f.W) {p t : Nat} {tt : HTree} (ck : Checke
       obtain ⟨_, _, _, hdead⟩ := addConsolidate_spec w t (f.lastChild p) none
       unfold append
       simp only [structureCheck_of_checked ck, hlc, Bool.not_true, Bool.false_eq_true, if_false]
-      rw [prevSibling_none_of_root hpn, removeConsolidate_none_left]
+      rw [prevSibling_none_of_root hpn, fa_removeConsolidate_none_left]
       simp only [hc2, if_true]
       exact hdead hc2
   · intro hnt
